@@ -5,13 +5,16 @@ CHECK = {
     "technique": "stateless model checking of the implementation with state hashing: all interleavings of the containers' atomic operations for 2 threads, deviation-bounded for 3 threads, ownership monitors",
     "level_text": "Small multi-threaded scenarios (1-5 operations per thread on pools of 1-3 slots, queues of up to 4 tasks with "
                   "0/1/2 shared or disjoint resource locks, locks, counters, LockFree::add, MemorySpace overflow, crossed "
-                  "two-lock acquisition) run on the real classes with every std::atomic operation announced to a cooperative "
+                  "two-lock acquisition, buffer reuse after free; plus systematic families: every pool of 1-3 slots x every initial "
+                  "history over {get, free, re-get} (wrapped cursors, held slots) x every 1-2 operation program per thread, every "
+                  "queue of six tasks x initially held task x program, with a scheduling point while a slot or task is held and, "
+                  "where marked, after every modifying atomic operation) run on the real classes with every std::atomic operation announced to a cooperative "
                   "scheduler. 2-thread scenarios are explored over ALL interleavings (search pruned only at already visited "
                   "states), 3-thread scenarios up to a deviation bound. Monitors flag a slot/task/lock/buffer returned to a second "
                   "owner at the moment it happens; quiescent checks compare occupancy with slots held, hand-outs with queued "
                   "tasks, drain the queue alone, and compare counters with the sum of updates.",
     "level_note": "Each std::atomic operation is one indivisible, sequentially consistent step; a thread that yields in a retry "
-                  "loop is not rescheduled before another thread has moved (fair scheduling). Scenario alphabet is listed in the "
+                  "loop may continue itself at most once in a row while another thread is enabled (fair scheduling). Scenario alphabet is listed in the "
                   "harness; more threads or longer programs are not covered.",
     "quick_deadline": 90,
     "thorough_deadline": 900,
